@@ -80,10 +80,16 @@ class BranchingList:
         self.num_cases += 1
         return self.num_cases
     
-    def false_case(self):
+    def false_case(self, indent=None):
         """ Checks if some of the openned cases is not selected
+
+        :param int indent: Consider only cases that enclose a clause with this indent
         """
-        for branch in self.state:
+        state = list(self.state)
+        if indent is not None:
+            while state and indent<=self.cases[self.branches[state[-1]].cases[-1]].indent:
+                state.pop()
+        for branch in state:
             # count number of true cases
             num_true = sum([self.cases[c].value==True for c in self.branches[branch].cases])
             # only first `true` case is valid
